@@ -126,6 +126,20 @@ def run (s : RSt) : List Op → RSt × List Out
 def attached (idc : Nat) (mode : Mode) : RSt :=
   { dc := idc, lc := 0, drain := false, processed := 0, mode := mode, queued := 0, pending := 0 }
 
+/-- source facts: at an attach the receiver's count becomes the sender's `initial-delivery-count` as it
+    is (no carrying over of an earlier count); a batch disposal adds the size of the batch to the
+    count that drives the top-up, whatever the settlement state of its deliveries -/
+def attachTakesTheSendersCount : Bool :=
+  open attach_count in
+  decide (idx_initial_delivery_count_mut_________initial_delivery_count__ < 1000) &&
+  decide (idx_delivery_count_mut_________initial_delivery_count__ < 1000)
+
+def batchCountsEveryDelivery : Bool :=
+  open dispose_all_count in
+  decide (idx_let_total___delivery_infos___len_____as_u32 < idx_fetch_add___total) &&
+  decide (idx_fetch_add___total < idx_update_credit_if_auto___prev___total__) &&
+  decide (idx_update_credit_if_auto___prev___total__ < 1000)
+
 /-- `ReceiverInner::resume_incoming_attach` when nothing is queued: the delivery-count is the one the
     sender's new attach carries, and the credit held is issued again (`set_credit(link_credit)`) -/
 def resume (s : RSt) (idc : Nat) : RSt × List Out :=
